@@ -87,6 +87,7 @@ type Result struct {
 	Obs         []Ob
 	Counters    map[string]int // functions_analysed, call_sites, ...
 	Rules       map[string]string
+	AllFuncs    map[string]bool // names (model.FnName) of every function of the loaded program
 	start       time.Time
 	keyCount    map[string]int
 }
@@ -152,17 +153,73 @@ func (r *Result) Violations(t *Tables) int {
 	for _, k := range t.Reviewed {
 		reviewed[k.Key] = k
 	}
-	n := 0
-	for _, o := range r.Obs {
+	used := map[string]bool{}
+	var open []int
+	for i, o := range r.Obs {
 		if o.Status != Violated || known[o.Key] {
 			continue
 		}
-		if _, ok := lookupReviewed(reviewed, t.Reviewed, o.Key); ok {
+		if rv, ok := lookupReviewed(reviewed, t.Reviewed, o.Key); ok {
+			used[rv.Key] = true
 			continue
 		}
-		n++
+		open = append(open, i)
 	}
-	return n
+	return len(open) - len(r.budgetMatches(t, used, open))
+}
+
+// keyParts splits an obligation key "rule|fn|kind|expr[@caller]|ordinal".
+func keyParts(key string) (rule, fn, kind string, hasAt, ok bool) {
+	p := strings.SplitN(key, "|", 4)
+	if len(p) < 4 {
+		return "", "", "", false, false
+	}
+	return p[0], p[1], p[2], strings.Contains(p[3], "@"), true
+}
+
+// budgetMatches: a reviewed entry is about an obligation of one function; its key carries the
+// expression text, which a behaviour-preserving edit (renamed field or local, hoisted
+// sub-expression, renamed function) changes. An obligation that no entry matches may therefore
+// take over an entry that matched nothing in this run when it belongs to the same function (or
+// the entry's function no longer exists and the kind is the same) and agrees on being a
+// caller-side requirement or not. One entry covers one obligation: an additional unproved
+// obligation in the function finds no free entry and is reported.
+func (r *Result) budgetMatches(t *Tables, used map[string]bool, open []int) map[int]Reviewed {
+	out := map[int]Reviewed{}
+	if len(open) == 0 {
+		return out
+	}
+	// a function "no longer exists" when the program has no function of that name (the set is
+	// filled by the driver from the loaded program; without it nothing counts as gone)
+	live := r.AllFuncs
+	if live == nil {
+		return out
+	}
+	taken := map[string]bool{}
+	for _, i := range open {
+		rule, fn, kind, hasAt, ok := keyParts(r.Obs[i].Key)
+		if !ok {
+			continue
+		}
+		for _, e := range t.Reviewed {
+			if used[e.Key] || taken[e.Key] || strings.HasSuffix(e.Key, "|*") {
+				continue
+			}
+			erule, efn, ekind, eAt, eok := keyParts(e.Key)
+			if !eok || eAt != hasAt {
+				continue
+			}
+			if erule != rule && !(strings.HasPrefix(erule, "*.") && strings.HasSuffix(rule, erule[1:])) {
+				continue
+			}
+			if efn == fn || (!live[efn] && ekind == kind) {
+				taken[e.Key] = true
+				out[i] = e
+				break
+			}
+		}
+	}
+	return out
 }
 
 // Finish applies the tables, prints the verdict lines, writes evidence, returns exit code.
@@ -178,6 +235,36 @@ func (r *Result) Finish(t *Tables, evidenceDir string) int {
 		reviewed[k.Key] = k
 	}
 	usedKnown := map[string]bool{}
+	usedRv := map[string]bool{}
+	var open []int
+	for i := range r.Obs {
+		o := &r.Obs[i]
+		if o.Status != Violated {
+			continue
+		}
+		if k, ok := known[o.Key]; ok {
+			o.Status = Known
+			o.Detail = o.Detail + " [known finding: " + k.What + "]"
+			usedKnown[o.Key] = true
+		} else if rv, ok := lookupReviewed(reviewed, t.Reviewed, o.Key); ok {
+			usedRv[rv.Key] = true
+			o.Status = Assumed
+			o.Detail = o.Detail + " [reviewed invariant: " + rv.Assume + " — " + rv.Reason + "]"
+		} else {
+			open = append(open, i)
+		}
+	}
+	for i, rv := range r.budgetMatches(t, usedRv, open) {
+		o := &r.Obs[i]
+		usedRv[rv.Key] = true
+		o.Status = Assumed
+		o.Detail = o.Detail + " [reviewed invariant of this function, entry " + rv.Key + " (its expression text no longer occurs; matched by function): " + rv.Assume + " — " + rv.Reason + "]"
+	}
+	if os.Getenv("LALCHECK_USED_REVIEWED") != "" {
+		for k := range usedRv {
+			fmt.Printf("USED-REVIEWED\t%s\n", k)
+		}
+	}
 	var nObl, nDis, nAss, nKnown, nViol, nNontriv int
 	distinct := map[string]bool{}
 	var viol []Ob
@@ -187,19 +274,6 @@ func (r *Result) Finish(t *Tables, evidenceDir string) int {
 			continue
 		}
 		nObl++
-		if o.Status == Violated {
-			if k, ok := known[o.Key]; ok {
-				o.Status = Known
-				o.Detail = o.Detail + " [known finding: " + k.What + "]"
-				usedKnown[o.Key] = true
-			} else if rv, ok := lookupReviewed(reviewed, t.Reviewed, o.Key); ok {
-				if os.Getenv("LALCHECK_USED_REVIEWED") != "" {
-					fmt.Printf("USED-REVIEWED\t%s\n", rv.Key)
-				}
-				o.Status = Assumed
-				o.Detail = o.Detail + " [reviewed invariant: " + rv.Assume + " — " + rv.Reason + "]"
-			}
-		}
 		switch o.Status {
 		case Discharged:
 			nDis++
